@@ -74,11 +74,17 @@ fn case1<T: Elem>(case: u64, args: &Args, ev: &mut Ev) {
         &LinearOpts {
             extrapolate,
             max_n: if case % 10 == 6 { 40 } else { 14 },
-            max_lane_rank: 2,
+            // every eighth case: up to six trailing axes (data of seven axes exist only as IxDyn)
+            max_lane_rank: if case % 8 == 4 { 6 } else { 2 },
             extreme_magnitudes: true,
             ..Default::default()
         },
     );
+    let mut spec = spec;
+    if spec.data.ndim() > 6 {
+        spec.dynamic = true;
+        ev.add("data_of_seven_axes_cases", 1);
+    }
     let x = spec.axis();
     let n = x.len();
     let lanes = spec.n_lanes();
